@@ -60,6 +60,8 @@ MIN_COUNTERS = {
               "branch_feasible": 30000, "branch_infeasible": 35000, "selection_nontrivial": 45000,
               "infeasible_partial_histories": 18000, "feasible_without_usable_objective": 9000,
               "feasible_nan_objective_before_finite": 550, "feasible_missing_objective_before_finite": 2300,
+              "bitwise_twin_histories": 6000, "later_bitwise_twin_is_the_only_acceptable_one": 1300,
+              "earlier_bitwise_twin_is_the_only_acceptable_one": 1300, "optimum_index_judged_with_bitwise_twins": 5800,
               "feasibility_checks_full_points": 200000, "random_histories": 48000, "pareto_fronts_judged": 1800,
               "live_store_events_judged": 900, "maximize_cases": 35000, "original_objective_sign_restored": 13000},
     # thorough claims the complete pattern space: every one of the 746 496 patterns must have been judged
@@ -67,6 +69,8 @@ MIN_COUNTERS = {
                  "branch_feasible": 350000, "branch_infeasible": 400000, "selection_nontrivial": 500000,
                  "infeasible_partial_histories": 200000, "feasible_without_usable_objective": 100000,
                  "feasible_nan_objective_before_finite": 6000, "feasible_missing_objective_before_finite": 24000,
+                 "bitwise_twin_histories": 60000, "later_bitwise_twin_is_the_only_acceptable_one": 13000,
+                 "earlier_bitwise_twin_is_the_only_acceptable_one": 13000, "optimum_index_judged_with_bitwise_twins": 58000,
                  "feasibility_checks_full_points": 2000000, "random_histories": 480000, "pareto_fronts_judged": 18000,
                  "live_store_events_judged": 5000, "maximize_cases": 400000, "original_objective_sign_restored": 150000},
 }
